@@ -305,10 +305,12 @@ func (b *Batcher) trySendBatchAndUnlock(batch *Batch) {
 	verifTrace("b.seal", uint64(batch.seq), verifBatcherID(b))
 	b.outSeq++
 	b.batch = nil
+	// Send while mu is still held: Stop closes fullBatches under mu, so a send after the
+	// unlock could hit a closed channel. The send never blocks, the channel has room for
+	// every batch (cap == Workers == number of batches).
+	b.fullBatches <- batch
 	b.mu.Unlock()
 	verifGate("b.enqueue", uint64(batch.seq)<<2|uint64(batch.status), verifBatcherID(b))
-
-	b.fullBatches <- batch
 }
 
 func (b *Batcher) getBatch() *Batch {
